@@ -86,42 +86,59 @@ def tyRange : CTy → Int × Int
   | .u64 => (0, 18446744073709551615) | .i64 => (-9223372036854775808, 9223372036854775807)
   | _ => (0, 0)
 
-/-- integer → integer conversions written out on bit vectors (so that proofs see
-    `setWidth` / `signExtend` directly); float sources go through the exact value. -/
-def castInt (t : CTy) (v : CVal) : Out CVal :=
-  let fromNat (w : Nat) (x : BitVec w) : CVal :=   -- source unsigned: zero-extend / truncate
-    match t with
-    | .u8 => u8 (x.setWidth 8) | .i8 => i8 (x.setWidth 8)
-    | .u16 => u16 (x.setWidth 16) | .i16 => i16 (x.setWidth 16)
-    | .u32 => u32 (x.setWidth 32) | .i32 => i32 (x.setWidth 32)
-    | .u64 => u64 (x.setWidth 64) | .i64 => i64 (x.setWidth 64)
-    | .f32 => f32 (BitVec.ofNat 32 (SF.ofInt SF.f32 x.toNat))
-    | .f64 => f64 (BitVec.ofNat 64 (SF.ofInt SF.f64 x.toNat))
-  let fromInt (w : Nat) (x : BitVec w) : CVal :=   -- source signed: sign-extend / truncate
-    match t with
-    | .u8 => u8 (x.signExtend 8) | .i8 => i8 (x.signExtend 8)
-    | .u16 => u16 (x.signExtend 16) | .i16 => i16 (x.signExtend 16)
-    | .u32 => u32 (x.signExtend 32) | .i32 => i32 (x.signExtend 32)
-    | .u64 => u64 (x.signExtend 64) | .i64 => i64 (x.signExtend 64)
-    | .f32 => f32 (BitVec.ofNat 32 (SF.ofInt SF.f32 x.toInt))
-    | .f64 => f64 (BitVec.ofNat 64 (SF.ofInt SF.f64 x.toInt))
-  let fromFloat (fmt : SF.Fmt) (b : Nat) : Out CVal :=
-    match t with
-    | .f32 => .val (f32 (BitVec.ofNat 32 (SF.convert fmt SF.f32 b)))
-    | .f64 => .val (f64 (BitVec.ofNat 64 (SF.convert fmt SF.f64 b)))
-    | _ =>
-      match SF.truncToInt fmt b with
-      | none => .ub .floatToIntRange
-      | some n =>
-        let (lo, hi) := tyRange t
-        if lo ≤ n ∧ n ≤ hi then .val (ofIntTy t n) else .ub .floatToIntRange
-  match v with
-  | u8 x => .val (fromNat 8 x) | u16 x => .val (fromNat 16 x)
-  | u32 x => .val (fromNat 32 x) | u64 x => .val (fromNat 64 x)
-  | i8 x => .val (fromInt 8 x) | i16 x => .val (fromInt 16 x)
-  | i32 x => .val (fromInt 32 x) | i64 x => .val (fromInt 64 x)
-  | f32 b => if t = .f32 then .val v else fromFloat SF.f32 b.toNat
-  | f64 b => if t = .f64 then .val v else fromFloat SF.f64 b.toNat
+/-- conversion from a floating value: float→float is exact/rounded by `SF.convert`;
+    float→integer truncates toward zero and is undefined behaviour (C11 6.3.1.4) when the
+    truncated value is not representable in the target type (incl. NaN and infinities). -/
+def fromFloat (t : CTy) (fmt : SF.Fmt) (b : Nat) : Out CVal :=
+  match t with
+  | .f32 => .val (f32 (BitVec.ofNat 32 (SF.convert fmt SF.f32 b)))
+  | .f64 => .val (f64 (BitVec.ofNat 64 (SF.convert fmt SF.f64 b)))
+  | _ =>
+    match SF.truncToInt fmt b with
+    | none => .ub .floatToIntRange
+    | some n =>
+      if (tyRange t).1 ≤ n ∧ n ≤ (tyRange t).2 then .val (ofIntTy t n) else .ub .floatToIntRange
+
+/-- conversion of an unsigned source of width `w`: zero-extend / truncate (floats: exact value, rounded) -/
+def fromNat (t : CTy) (w : Nat) (x : BitVec w) : CVal :=
+  match t with
+  | .u8 => u8 (x.setWidth 8) | .i8 => i8 (x.setWidth 8)
+  | .u16 => u16 (x.setWidth 16) | .i16 => i16 (x.setWidth 16)
+  | .u32 => u32 (x.setWidth 32) | .i32 => i32 (x.setWidth 32)
+  | .u64 => u64 (x.setWidth 64) | .i64 => i64 (x.setWidth 64)
+  | .f32 => f32 (BitVec.ofNat 32 (SF.ofInt SF.f32 x.toNat))
+  | .f64 => f64 (BitVec.ofNat 64 (SF.ofInt SF.f64 x.toNat))
+
+/-- conversion of a signed source of width `w`: sign-extend / truncate -/
+def fromInt (t : CTy) (w : Nat) (x : BitVec w) : CVal :=
+  match t with
+  | .u8 => u8 (x.signExtend 8) | .i8 => i8 (x.signExtend 8)
+  | .u16 => u16 (x.signExtend 16) | .i16 => i16 (x.signExtend 16)
+  | .u32 => u32 (x.signExtend 32) | .i32 => i32 (x.signExtend 32)
+  | .u64 => u64 (x.signExtend 64) | .i64 => i64 (x.signExtend 64)
+  | .f32 => f32 (BitVec.ofNat 32 (SF.ofInt SF.f32 x.toInt))
+  | .f64 => f64 (BitVec.ofNat 64 (SF.ofInt SF.f64 x.toInt))
+
+/-- C conversion `(t)v`.  Defined by cases on the constructor of `v` so that simplification
+    only fires on evaluated operands. -/
+def castInt (t : CTy) : CVal → Out CVal
+  | u8 x => .val (fromNat t 8 x) | u16 x => .val (fromNat t 16 x)
+  | u32 x => .val (fromNat t 32 x) | u64 x => .val (fromNat t 64 x)
+  | i8 x => .val (fromInt t 8 x) | i16 x => .val (fromInt t 16 x)
+  | i32 x => .val (fromInt t 32 x) | i64 x => .val (fromInt t 64 x)
+  | f32 b => if t = .f32 then .val (f32 b) else fromFloat t SF.f32 b.toNat
+  | f64 b => if t = .f64 then .val (f64 b) else fromFloat t SF.f64 b.toNat
+
+@[simp] theorem castInt_u8 (t x) : castInt t (u8 x) = .val (fromNat t 8 x) := rfl
+@[simp] theorem castInt_u16 (t x) : castInt t (u16 x) = .val (fromNat t 16 x) := rfl
+@[simp] theorem castInt_u32 (t x) : castInt t (u32 x) = .val (fromNat t 32 x) := rfl
+@[simp] theorem castInt_u64 (t x) : castInt t (u64 x) = .val (fromNat t 64 x) := rfl
+@[simp] theorem castInt_i8 (t x) : castInt t (i8 x) = .val (fromInt t 8 x) := rfl
+@[simp] theorem castInt_i16 (t x) : castInt t (i16 x) = .val (fromInt t 16 x) := rfl
+@[simp] theorem castInt_i32 (t x) : castInt t (i32 x) = .val (fromInt t 32 x) := rfl
+@[simp] theorem castInt_i64 (t x) : castInt t (i64 x) = .val (fromInt t 64 x) := rfl
+@[simp] theorem castInt_f32 (t b) : castInt t (f32 b) = if t = .f32 then .val (f32 b) else fromFloat t SF.f32 b.toNat := rfl
+@[simp] theorem castInt_f64 (t b) : castInt t (f64 b) = if t = .f64 then .val (f64 b) else fromFloat t SF.f64 b.toNat := rfl
 
 /-- truth value of a scalar used as a condition -/
 def truthy : CVal → Bool
